@@ -470,10 +470,38 @@ def next_rules(ctx, R41, R42, R43, R44, R45, R35, R36, want_c03=True, want_c04=T
         d_inp = len([c for c in calls if isinstance(c[2], str) and c[2].endswith('::push') and arg_loc(f, c[4], 0) == (1, 'inp')]) - \
             len([c for c in calls if isinstance(c[2], str) and c[2].endswith('::pop') and arg_loc(f, c[4], 0) == (1, 'inp')])
         cleared = any(isinstance(c[2], str) and c[2].endswith('::clear') and arg_loc(f, c[4], 0) == (1, 'stack') for c in calls)
+        def exhausted_known():
+            """1 / 0 / None: on this path the resumed frame is known exhausted (trans >= len) / known not (trans < len) / not tested"""
+            res = None
+            for d in p.decisions:
+                e = d[2]
+                if e[0] != 'bin' or e[1] not in ('Lt', 'Le', 'Gt', 'Ge', 'Eq', 'Ne') or d[3] not in (0, 1):
+                    continue
+                a, b = norm(e[2]), norm(e[3])
+                ta, tb = a == norm(fld('trans')), b == norm(fld('trans'))
+                la = is_call(a, '::len') and norm(a[2][0]) == norm(fld('node'))
+                lb = is_call(b, '::len') and norm(b[2][0]) == norm(fld('node'))
+                if ta and lb:
+                    op = e[1]
+                elif tb and la:
+                    op = {'Lt': 'Gt', 'Gt': 'Lt', 'Le': 'Ge', 'Ge': 'Le'}.get(e[1], e[1])
+                else:
+                    continue
+                if not d[3]:
+                    op = {'Lt': 'Ge', 'Ge': 'Lt', 'Le': 'Gt', 'Gt': 'Le', 'Eq': 'Ne', 'Ne': 'Eq'}[op]
+                # op now relates trans to len and holds on the path
+                res = {'Lt': 0, 'Ge': 1, 'Eq': 1, 'Gt': 1}.get(op, 'weak')       # Le / Ne: neither trans < len nor trans >= len
+            return res
         if not descended:
             # skip branch: frame exhausted or pruned
             if p.end in ('cut',):
                 n_iter += 1
+                xk = exhausted_known()
+                cmv = [d[3] for d in p.decisions if is_call(d[2], 'Automaton::can_match')]
+                if xk in (0, 'weak') and not (cmv and cmv[-1] == 0):
+                    ctx.violation(R35 or R43, 'skip-justified', 'a frame is abandoned although it still has transitions to try (not known exhausted) and the automaton did not rule out a match: every key below it is lost', fn=f)
+                elif xk is not None:
+                    ctx.check(R35 or R43, True, 'skip-justified', '', fn=f)
                 root_guard = [d for d in p.decisions if d[2][0] == 'bin' and d[2][1] in ('Ne', 'Eq') and any(is_call(x, '::root_addr') or (x[0] == 'field' and x[2] == 'root_addr') for x in walk(d[2]))]
                 at_root = bool(root_guard) and ((root_guard[0][2][1] == 'Ne' and root_guard[0][3] == 0) or (root_guard[0][2][1] == 'Eq' and root_guard[0][3] == 1))
                 if want_c03:
@@ -489,6 +517,12 @@ def next_rules(ctx, R41, R42, R43, R44, R45, R35, R36, want_c03=True, want_c04=T
         # ---- descent ------------------------------------------------------------------------
         tcall = norm(p.sym.call_expr_at((tr_calls[0][0], 'T')))
         okt = norm(tcall[2][0]) == norm(fld('node')) and norm(tcall[2][1]) == norm(fld('trans'))
+        if okt:
+            xk = exhausted_known()
+            if xk is None:
+                ctx.undecided(R35 or R43, 'descend-in-range', 'the DFS step reads transition frame.trans without a recognised "trans < number of transitions" test', fn=f, at=tr_calls[0][4].get('span'))
+            else:
+                ctx.check(R35 or R43, xk == 0, 'descend-in-range', 'the DFS step follows transition number frame.trans on a path where frame.trans < node.len() is not established (exhausted frames are resumed): reads past the node\'s transitions', fn=f, at=tr_calls[0][4].get('span'))
         t_inp, t_out, t_addr = ('field', tcall, 'inp'), ('field', tcall, 'out'), ('field', tcall, 'addr')
         acc = [c for c in calls if isinstance(c[2], str) and c[2].endswith('Automaton::accept')]
         ns = norm(p.sym.call_expr_at((acc[0][0], 'T'))) if acc else None
